@@ -32,6 +32,8 @@ type World struct {
 	scratchD *Decls
 	typeInvs map[string]*Clause
 	globalInvs map[string]*Clause
+	immutable  map[string]bool
+	macros     map[string]string
 }
 
 func shortName(s string) string {
